@@ -9,6 +9,7 @@ pub mod selftest;
 
 pub mod gen_codec;
 
+pub mod c01;
 pub mod c02;
 pub mod c03;
 pub mod c04;
@@ -17,11 +18,13 @@ pub mod c06;
 pub mod c07;
 pub mod c08;
 pub mod c09;
+pub mod c10;
 pub mod c11;
 pub mod c12;
 pub mod c13;
 pub mod c14;
 pub mod c15;
+pub mod c16;
 pub mod c17;
 
 /// A violation found by a (possibly parallel) sweep, before it is handed to the context.
@@ -42,6 +45,7 @@ pub fn found(key: impl Into<String>, what: impl Into<String>, case: Value) -> Fo
 
 pub fn run(id: &str, tier: Tier) {
     match id {
+        "C01" => c01::run(tier),
         "C02" => c02::run(tier),
         "C03" => c03::run(tier),
         "C04" => c04::run(tier),
@@ -50,10 +54,12 @@ pub fn run(id: &str, tier: Tier) {
         "C07" => c07::run(tier),
         "C08" => c08::run(tier),
         "C09" => c09::run(tier),
+        "C10" => c10::run(tier),
         "C11" => c11::run(tier),
         "C13" => c13::run(tier),
         "C14" => c14::run(tier),
         "C15" => c15::run(tier),
+        "C16" => c16::run(tier),
         "C17" => c17::run(tier),
         "C12" => c12::run(tier),
         _ => machinery_error(&format!("no check for property {}", id)),
@@ -74,6 +80,7 @@ pub fn replay_file(path: &str) -> i32 {
     let id = v.get("property").and_then(|s| s.as_str()).unwrap_or("").to_string();
     let case = v.get("case").cloned().unwrap_or(Value::Null);
     let r: Result<Option<String>, String> = match id.as_str() {
+        "C01" => c01::replay(&case),
         "C02" => c02::replay(&case),
         "C03" => c03::replay(&case),
         "C04" => c04::replay(&case),
@@ -82,10 +89,12 @@ pub fn replay_file(path: &str) -> i32 {
         "C07" => c07::replay(&case),
         "C08" => c08::replay(&case),
         "C09" => c09::replay(&case),
+        "C10" => c10::replay(&case),
         "C11" => c11::replay(&case),
         "C13" => c13::replay(&case),
         "C14" => c14::replay(&case),
         "C15" => c15::replay(&case),
+        "C16" => c16::replay(&case),
         "C17" => c17::replay(&case),
         "C12" => c12::replay(&case),
         _ => Err(format!("no replay for property {}", id)),
